@@ -1,5 +1,5 @@
 """C14 JSON Pointer operations follow RFC 6901 - escape tables, token automaton, index grammar."""
-from .. import frontend as F, ast as A, cfg as C, util as U, peval as P, guards as G
+from .. import frontend as F, ast as A, cfg as C, util as U, peval as P, guards as G, inline as I
 
 EXPLANATION = ('(R14.1) every reference-token escape writer maps ~ to ~0, / to ~1 and copies every other character (all 256 characters, by '
                'partial evaluation); (R14.2) the pointer tokenizer is the inverse automaton: ~0 -> ~, ~1 -> /, any other character after ~ is an '
@@ -9,9 +9,20 @@ EXPLANATION = ('(R14.1) every reference-token escape writer maps ~ to ~0, / to ~
 NOT_DECIDED = 'that the addressed location is the right one for all documents; only the structural clauses are decided'
 
 def r14_1(chk, facts):
-    chk.rule('R14.1', 'escape writers: ~ -> ~0, / -> ~1, every other character copied (256 characters per writer)', floor=512)
-    fns = [f for f in facts.functions if f['file'].endswith('jsonpointer.hpp') and not f.get('dep') and f.get('body') is not None
-           and f['n'] in ('escape', 'escape_string', 'to_string', 'to_uri_fragment')]
+    chk.rule('R14.1', 'escape writers: ~ -> ~0, / -> ~1, every other character copied (256 characters per writer: every character loop of '
+                      'jsonpointer.hpp that tests for `~`); the public escaping entry points (escape, basic_json_pointer::to_string) each '
+                      'contain such a loop or call a helper that does', floor=256)
+    fns = [f for f in facts.functions if f['file'].endswith('jsonpointer.hpp') and not f.get('dep') and f.get('body') is not None]
+    def is_writer_loop(lp): return any(A.const(y) == 0x7e for y in A.walk(lp.get('body')) if y.get('k') in ('CharacterLiteral', 'IntegerLiteral') or 'ev' in y)
+    entries = 0
+    for fn in U.one_per_inst([f for f in fns if f['n'] in ('escape', 'to_string')]):
+        if fn['n'] == 'to_string' and 'basic_json_pointer' not in (fn.get('cls') or ''): continue
+        entries += 1
+        has = any(x.get('k') == 'CXXForRangeStmt' and is_writer_loop(x) for b in I.closure_bodies(facts, fn, depth=2) for x in A.walk_no_lambda(b))
+        site = U.site(fn, 'escaping entry point')
+        if has: chk.ok('R14.1', site, {'function': fn['q']})
+        else: chk.fail('R14.1', site, fn['file'], fn['l'], '%s neither contains nor calls a character loop that escapes `~` and `/`' % fn['n'], None, fn['q'])
+    chk.require(entries >= 2, 'R14.1: escaping entry points (escape, basic_json_pointer::to_string) not found')
     nwr = 0
     for fn in U.one_per_inst(fns):
         loops = [x for x in A.walk_no_lambda(fn['body']) if x.get('k') == 'CXXForRangeStmt']
@@ -46,7 +57,7 @@ def r14_1(chk, facts):
                 else:
                     chk.fail('R14.1', U.site(fn, 'writer char=%s' % chs), fn['file'], inner.get('l'),
                              '%s writes %s for %s, RFC 6901 needs %s' % (fn['n'], pushes, chs, want), {'function': fn['q']}, fn['q'])
-    chk.require(nwr >= 2, 'R14.1: only %d escape writers found' % nwr)
+    chk.require(nwr >= 1, 'R14.1: no escape writer (character loop testing for `~`) found in jsonpointer.hpp')
 
 def r14_2(chk, facts):
     chk.rule('R14.2', 'tokenizer automaton (basic_json_pointer::parse): start accepts only /, ~ enters the escaped state, escaped accepts only 0 and 1 '
